@@ -131,6 +131,63 @@ let run_kzg10 c =
       (indexed c "batch")
   | r -> obs1 "setup" "S" (class_of r)
 
+(* ---------------- C16: LC operators, evaluate_query_set, succinct check polynomial ---------------- *)
+let n_of_str s : Big_int_Z.big_int = Z.of_string s
+let parse_terms fo toks =
+  let rec go = function
+    | co :: t :: rest ->
+      let term = if t = "one" then LC.TOne else LC.TPoly (n_of_str t) in
+      (f_of_str co, term) :: go rest
+    | _ -> [] in
+  go toks
+let dash l = if l = [] then [ "-" ] else l
+let run_c16 c =
+  let fo = fo () in
+  match str1 c "sub" with
+  | "lcop" ->
+    let lc0 = parse_terms fo (get c "lc0") in
+    let ops = List.map (fun (_, op) ->
+        match op with
+        | "addscaled" :: k :: r -> LC.OpAddScaled (f_of_str k, parse_terms fo r)
+        | "subscaled" :: k :: r -> LC.OpSubScaled (f_of_str k, parse_terms fo r)
+        | "add" :: r -> LC.OpAdd (parse_terms fo r)
+        | "sub" :: r -> LC.OpSub (parse_terms fo r)
+        | [ "addc"; k ] -> LC.OpAddConst (f_of_str k)
+        | [ "subc"; k ] -> LC.OpSubConst (f_of_str k)
+        | [ "mul"; k ] -> LC.OpMul (f_of_str k)
+        | _ -> failwith "bad lc op") (indexed c "op") in
+    let lc = List.fold_left (fun l op -> LC.apply_op fo l op) lc0 ops in
+    let rec pairs = function a :: b :: r -> (Z.of_string a, f_of_str b) :: pairs r | _ -> [] in
+    let evl = pairs (get c "ev") in
+    let ev (l : Big_int_Z.big_int) = try List.assoc l evl with Not_found -> tof Z.zero in
+    obs "terms" "F" (dash (List.map (fun (co, _) -> f_to_str co) lc));
+    obs "tlabels" "S" (dash (List.map (fun (_, t) -> match t with LC.TOne -> "one" | LC.TPoly l -> Z.to_string l) lc));
+    obs1 "value" "F" (f_to_str (LC.lc_value fo ev lc));
+    (* the same sequence on values (theorem C16_lc_operator_sequences) *)
+    obs1 "value_by_ops" "F" (f_to_str (List.fold_left (fun v op -> LC.apply_op_value fo ev v op) (LC.lc_value fo ev lc0) ops))
+  | "eqs" ->
+    let polys = List.map (fun (_, p) -> (n_of_str (List.hd p), List.map f_of_str (List.tl p))) (indexed c "poly") in
+    let pm = LC.poly_map fo polys in
+    let rec triples = function a :: b :: z :: r -> (n_of_str a, (n_of_str b, f_of_str z)) :: triples r | _ -> [] in
+    (* QuerySet is a BTreeSet: iteration in (label, (point label, point)) order; the result map is order-independent *)
+    let qs = triples (get c "qs") in
+    let r = LC.evaluate_query_set fo pm qs [] in
+    obs1 "eqs" "S" (class_of r);
+    (match r with
+     | Result.Ok m ->
+       obs "eq_keys" "S" (dash (List.map (fun ((l, z), _) -> Z.to_string l ^ ":" ^ f_to_str z) m));
+       obs "eq_vals" "F" (dash (List.map (fun (_, v) -> f_to_str v) m));
+       obs1 "eq_spec" "S" "holds"
+     | _ -> ())
+  | "scp" ->
+    let chs = fs_of c "chs" and z = f_of_str (str1 c "z") in
+    let coeffs = LC.compute_coeffs fo chs in
+    obs1 "ncoeffs" "N" (string_of_int (List.length coeffs));
+    obs "coeffs" "F" (fs_to coeffs);
+    obs1 "evalz" "F" (f_to_str (LC.sc_evaluate fo chs z));
+    obs1 "horner" "F" (f_to_str (Poly.eval fo coeffs z))
+  | s -> failwith ("unknown c16 sub " ^ s)
+
 let () =
   let file = Sys.argv.(1) in
   let ic = open_in file in
@@ -138,9 +195,12 @@ let () =
   close_in ic;
   List.iter (fun c ->
       Buffer.clear buf;
+      (if has c "modulus" then modulus := Z.of_string (str1 c "modulus")
+       else modulus := Z.of_string "52435875175126190479447740508185965837690552500527637822603658699938581184513");
       (try
          (match c.kind with
           | "kzg10" -> run_kzg10 c
+          | "c16" -> run_c16 c
           | _ -> () (* not modelled: the library run is judged by the implementation-level oracle only *))
        with e -> obs1 "runner_exception" "S" (String.map (fun ch -> if ch = ' ' then '_' else ch) (Printexc.to_string e)));
       print_string ("case " ^ c.id ^ "\n");
